@@ -251,13 +251,19 @@ impl PendingSubscriptionSink {
 		if success {
 			let (tx, rx) = mpsc::channel(1);
 			self.subscribers.lock().insert(self.uniq_sub.clone(), (self.inner.clone(), rx));
+			let unsubscribe = IsUnsubscribed(tx);
+			let guard = SubscriptionGuard {
+				subscribers: self.subscribers,
+				uniq_sub: self.uniq_sub.clone(),
+				unsubscribe: unsubscribe.clone(),
+			};
 			Ok(SubscriptionSink {
 				inner: self.inner,
 				method: self.method,
-				subscribers: self.subscribers,
 				uniq_sub: self.uniq_sub,
-				unsubscribe: IsUnsubscribed(tx),
+				unsubscribe,
 				_permit: Arc::new(self.permit),
+				_guard: Arc::new(guard),
 			})
 		} else {
 			panic!(
@@ -299,14 +305,38 @@ pub struct SubscriptionSink {
 	inner: MethodSink,
 	/// MethodCallback.
 	method: &'static str,
-	/// Shared Mutex of subscriptions for this method.
-	subscribers: Subscribers,
 	/// Unique subscription.
 	uniq_sub: SubscriptionKey,
 	/// A future to that fires once the unsubscribe method has been called.
 	unsubscribe: IsUnsubscribed,
 	/// Subscription permit
 	_permit: Arc<SubscriptionPermit>,
+	/// Shared by all clones of this sink: removes the subscription from the
+	/// subscribers table once the last clone has been dropped.
+	_guard: Arc<SubscriptionGuard>,
+}
+
+/// Drop guard shared by all clones of a [`SubscriptionSink`].
+///
+/// The subscription stays registered for as long as at least one clone of the
+/// sink is alive; the entry is removed when the last clone goes away (unless the
+/// subscription was already unsubscribed).
+#[derive(Debug)]
+struct SubscriptionGuard {
+	/// Shared Mutex of subscriptions for this method.
+	subscribers: Subscribers,
+	/// Unique subscription.
+	uniq_sub: SubscriptionKey,
+	/// Used to check whether the subscription is still registered.
+	unsubscribe: IsUnsubscribed,
+}
+
+impl Drop for SubscriptionGuard {
+	fn drop(&mut self) {
+		if !self.unsubscribe.is_unsubscribed() {
+			self.subscribers.lock().remove(&self.uniq_sub);
+		}
+	}
 }
 
 impl SubscriptionSink {
@@ -408,14 +438,6 @@ impl SubscriptionSink {
 
 	fn is_active_subscription(&self) -> bool {
 		!self.unsubscribe.is_unsubscribed()
-	}
-}
-
-impl Drop for SubscriptionSink {
-	fn drop(&mut self) {
-		if self.is_active_subscription() {
-			self.subscribers.lock().remove(&self.uniq_sub);
-		}
 	}
 }
 
